@@ -46,6 +46,8 @@ def _inert_class(name):
         return _inert_class(n)
     return _InertMeta(name, (), {"__init__": lambda self, *a, **k: None, "__getattr__": _getattr,
                                  "__call__": lambda self, *a, **k: None,
+                                 # `fig, ax = plt.subplots()`: an inert result unpacks into two inert objects
+                                 "__iter__": lambda self: iter((_inert_class("item0")(), _inert_class("item1")())),
                                  "__class_getitem__": classmethod(lambda c, i: c)})
 
 
